@@ -63,11 +63,13 @@ def host_assoc_case(ctx, i, rng, res):
     try:
         res.kind("class:host-assoc")
         for nm in names:
+            if vis[nm] == "fragment":
+                continue  # entities of a shared fragment belong to one includer at a time (recorded finding of C10/C15)
             occ = HA.occurrences(files, nm)
-            incfile = {o for o in occ if o[0].endswith(".inc")}
+            incfile = {o for o in occ if o[0].endswith("_inc.f90")}
             res.kind("host-assoc:" + vis[nm])
             for q in sorted(occ):
-                if q[0].endswith(".inc"):
+                if q[0].endswith("_inc.f90"):
                     continue  # queries inside the fragment depend on which includer is current (recorded finding of C10/C15)
                 for col in (q[2], q[3]):
                     r = srv.request("textDocument/references", srv.pos(ws.uri(q[0]), q[1], col, context={"includeDeclaration": True}))
@@ -83,7 +85,7 @@ def host_assoc_case(ctx, i, rng, res):
                     continue
                 break
             # rename from a random occurrence outside the fragment
-            qs = sorted(o for o in occ if not o[0].endswith(".inc"))
+            qs = sorted(o for o in occ if not o[0].endswith("_inc.f90"))
             q = rng.choice(qs)
             r = srv.request("textDocument/rename", dict(srv.pos(ws.uri(q[0]), q[1], q[2]), newName="zz_host_new"))
             res.count("evaluations")
@@ -95,7 +97,7 @@ def host_assoc_case(ctx, i, rng, res):
                     for o in sorted((o for o in occ if o[0] == f), key=lambda o: (o[1], -o[2])):
                         ls[o[1]] = ls[o[1]][:o[2]] + "zz_host_new" + ls[o[1]][o[3]:]
                     want[f] = "\n".join(ls)
-                bad = [f for f in files if not f.endswith(".inc") and (new or {}).get(f) != want[f]]
+                bad = [f for f in files if not f.endswith("_inc.f90") and (new or {}).get(f) != want[f]]
                 if bad:
                     res.violation(f"host-assoc:rename:{vis[nm]}", f"rename of {nm} from {q[:2]} leaves {bad} different from the expected text", {"files": files, "name": nm, "query": list(q)})
             else:
